@@ -29,6 +29,14 @@
 #include <kernel/solver/idrs.hpp>
 #include <kernel/solver/pcgnr.hpp>
 #include <kernel/solver/pmr.hpp>
+#include <kernel/solver/pipepcg.hpp>
+#include <kernel/solver/gropppcg.hpp>
+#include <kernel/solver/rbicgstab.hpp>
+#include <kernel/lafem/vector_mirror.hpp>
+#include <kernel/global/gate.hpp>
+#include <kernel/global/vector.hpp>
+#include <kernel/global/matrix.hpp>
+#include <kernel/global/filter.hpp>
 #include <kernel/solver/chebyshev.hpp>
 #include <kernel/solver/jacobi_precond.hpp>
 #include <kernel/solver/sor_precond.hpp>
@@ -47,6 +55,28 @@ typedef LAFEM::DenseVector<DT, IT> VecT;
 typedef LAFEM::UnitFilter<DT, IT> FilT;
 typedef Solver::Status St;
 typedef long double LD;
+// PipePCG, GroppPCG and RBiCGStab need the asynchronous reductions of Global::Vector: they run on the global
+// containers of a single-process gate (no neighbours), all other solvers on the plain LAFEM containers
+typedef LAFEM::VectorMirror<DT, IT> MirT;
+typedef Global::Gate<VecT, MirT> GateT;
+typedef Global::Vector<VecT, MirT> GVecT;
+typedef Global::Matrix<MatT, MirT, MirT> GMatT;
+typedef Global::Filter<FilT, MirT> GFilT;
+static GateT* g_gate = nullptr;
+
+template<class VT> struct VOps;
+template<> struct VOps<VecT>
+{
+  static VecT make(const std::vector<double>& v) { VecT r(Index(v.size())); for(Index i = 0; i < r.size(); ++i) r(i, v[i]); return r; }
+  static std::vector<double> read(const VecT& v) { std::vector<double> r(v.size()); for(Index i = 0; i < v.size(); ++i) r[i] = v(i); return r; }
+  static double norm(const VecT& v) { return v.size() > 0 ? double(v.norm2()) : 0.0; }
+};
+template<> struct VOps<GVecT>
+{
+  static GVecT make(const std::vector<double>& v) { return GVecT(g_gate, VOps<VecT>::make(v)); }
+  static std::vector<double> read(const GVecT& v) { return VOps<VecT>::read(v.local()); }
+  static double norm(const GVecT& v) { return VOps<VecT>::norm(v.local()); }
+};
 
 static const char* stname(St s)
 {
@@ -79,6 +109,7 @@ class Logged : public S
 {
 public:
   using S::S;
+  typedef typename S::VectorType VT;
   long ncalc = 0;
 
   vj::Value cfg_json() const
@@ -93,9 +124,9 @@ public:
   Index min_stag() const { return this->_min_stag_iter; }
 
 protected:
-  virtual DT _calc_def_norm(const VecT& d, const VecT& x) override { ++ncalc; return S::_calc_def_norm(d, x); }
+  virtual DT _calc_def_norm(const VT& d, const VT& x) override { ++ncalc; return S::_calc_def_norm(d, x); }
 
-  virtual St _set_initial_defect(const VecT& d, const VecT& x) override
+  virtual St _set_initial_defect(const VT& d, const VT& x) override
   {
     St st = S::_set_initial_defect(d, x);
     if(g_log)
@@ -110,7 +141,7 @@ protected:
       e["div"] = false; e["conv"] = false; e["stag"] = false;
       e["same"] = bool(this->_def_cur == di && this->_def_prev == di);
       g_log->ev.push(e); g_log->dv.push(vj::Value(di));
-      if(x.size() > 0) g_log->xmax = std::max(g_log->xmax, double(x.norm2()));
+      { double xn = VOps<VT>::norm(x); if(std::isfinite(xn)) g_log->xmax = std::max(g_log->xmax, xn); }
     }
     return st;
   }
@@ -130,14 +161,14 @@ protected:
     g_log->ev.push(e); g_log->dv.push(vj::Value(dc));
   }
 
-  virtual St _set_new_defect(const VecT& d, const VecT& x) override
+  virtual St _set_new_defect(const VT& d, const VT& x) override
   {
     const Index ni0 = this->_num_iter; const long nc0 = ncalc;
     St st = S::_set_new_defect(d, x);
     if(g_log)
     {
       log_step(false, ni0, nc0, st);
-      if(x.size() > 0) { double xn = x.norm2(); if(std::isfinite(xn)) g_log->xmax = std::max(g_log->xmax, xn); }
+      { double xn = VOps<VT>::norm(x); if(std::isfinite(xn)) g_log->xmax = std::max(g_log->xmax, xn); }
     }
     return st;
   }
@@ -152,19 +183,20 @@ protected:
 };
 
 // preconditioner proxy: records failures, can inject one
-class PrecProxy : public Solver::SolverBase<VecT>
+template<class VT>
+class PrecProxy : public Solver::SolverBase<VT>
 {
 public:
-  std::shared_ptr<Solver::SolverBase<VecT>> p;
+  std::shared_ptr<Solver::SolverBase<VT>> p;
   long calls = 0, fail_at = -1;
   bool failed = false;
-  explicit PrecProxy(std::shared_ptr<Solver::SolverBase<VecT>> q) : p(q) {}
+  explicit PrecProxy(std::shared_ptr<Solver::SolverBase<VT>> q) : p(q) {}
   virtual String name() const override { return "Proxy"; }
   virtual void init_symbolic() override { if(p) p->init_symbolic(); }
   virtual void init_numeric() override { if(p) p->init_numeric(); }
   virtual void done_numeric() override { if(p) p->done_numeric(); }
   virtual void done_symbolic() override { if(p) p->done_symbolic(); }
-  virtual St apply(VecT& cor, const VecT& def) override
+  virtual St apply(VT& cor, const VT& def) override
   {
     ++calls;
     if(calls == fail_at) { failed = true; cor.format(); return St::aborted; }
@@ -324,10 +356,11 @@ static bool inverse_ld(const System& S, std::vector<LD>& inv)
 // ------------------------------------------------------------------------------------------------------------
 // solver construction
 // ------------------------------------------------------------------------------------------------------------
+template<class VT>
 struct Built
 {
-  std::shared_ptr<Solver::IterativeSolver<VecT>> solver;
-  std::shared_ptr<PrecProxy> proxy;
+  std::shared_ptr<Solver::IterativeSolver<VT>> solver;
+  std::shared_ptr<PrecProxy<VT>> proxy;
   std::function<vj::Value()> cfg;
   std::function<bool()> skip;
   std::function<long long()> min_stag;
@@ -335,7 +368,7 @@ struct Built
 };
 
 template<class S, class... Args>
-static void mk(Built& b, Args&&... args)
+static void mk(Built<typename S::VectorType>& b, Args&&... args)
 {
   auto s = std::make_shared<Logged<S>>(std::forward<Args>(args)...);
   b.solver = s;
@@ -344,7 +377,7 @@ static void mk(Built& b, Args&&... args)
   b.min_stag = [s]() { return (long long)s->min_stag(); };
 }
 
-static bool build(Built& b, const std::string& sname, const std::string& pname, const System& S, double omega_prec)
+static bool build(Built<VecT>& b, const std::string& sname, const std::string& pname, const System& S, double omega_prec)
 {
   std::shared_ptr<Solver::SolverBase<VecT>> prec;
   if(pname == "jacobi") prec = Solver::new_jacobi_precond(S.mat, S.fil, omega_prec);
@@ -353,7 +386,7 @@ static bool build(Built& b, const std::string& sname, const std::string& pname, 
   else if(pname == "ilu") prec = Solver::new_ilu_precond(PreferredBackend::generic, S.mat, S.fil, 0);
   else if(pname != "none") return false;
   std::shared_ptr<Solver::SolverBase<VecT>> px;
-  if(prec) { b.proxy = std::make_shared<PrecProxy>(prec); px = b.proxy; }
+  if(prec) { b.proxy = std::make_shared<PrecProxy<VecT>>(prec); px = b.proxy; }
   if(sname == "PCG") mk<Solver::PCG<MatT, FilT>>(b, S.mat, S.fil, px);
   else if(sname == "PCR") mk<Solver::PCR<MatT, FilT>>(b, S.mat, S.fil, px);
   else if(sname == "BiCGStab") { mk<Solver::BiCGStab<MatT, FilT>>(b, S.mat, S.fil, px, Solver::BiCGStabPreconVariant::left); b.half = true; b.breakdown = true; }
@@ -378,23 +411,50 @@ static bool build(Built& b, const std::string& sname, const std::string& pname, 
   return true;
 }
 
+
+// the three solvers that need Global::Vector (asynchronous dot products); preconditioners: none, Jacobi
+struct GlobalSystem
+{
+  GateT gate;
+  GMatT mat;
+  GFilT fil;
+  explicit GlobalSystem(const System& S) : gate(Dist::Comm::world()), mat(&gate, &gate, S.mat.clone()), fil(S.fil.clone())
+  {
+    gate.compile(VecT(S.n, DT(1)));
+  }
+};
+static bool build_global(Built<GVecT>& b, const std::string& sname, const std::string& pname, GlobalSystem& G, double omega_prec)
+{
+  std::shared_ptr<Solver::SolverBase<GVecT>> prec;
+  if(pname == "jacobi") prec = Solver::new_jacobi_precond(G.mat, G.fil, omega_prec);
+  else if(pname != "none") return false;
+  std::shared_ptr<Solver::SolverBase<GVecT>> px;
+  if(prec) { b.proxy = std::make_shared<PrecProxy<GVecT>>(prec); px = b.proxy; }
+  if(sname == "PipePCG") { mk<Solver::PipePCG<GMatT, GFilT>>(b, G.mat, G.fil, px); b.pipelined = true; b.updsolver = true; }
+  else if(sname == "GroppPCG") { mk<Solver::GroppPCG<GMatT, GFilT>>(b, G.mat, G.fil, px); b.pipelined = true; b.updsolver = true; }
+  else if(sname == "RBiCGStab") { mk<Solver::RBiCGStab<GMatT, GFilT>>(b, G.mat, G.fil, px); b.half = true; b.updsolver = true; }
+  else return false;
+  return true;
+}
+
 // ------------------------------------------------------------------------------------------------------------
 // one solve = one trace record
 // ------------------------------------------------------------------------------------------------------------
 struct Prev { bool have = false; std::vector<double> x; std::string st; long long ni = -1; };
 
-static vj::Value one_solve(const vj::Value& c, Built& B, const System& S, const std::string& mode, const std::vector<double>& x0,
+template<class VT>
+static vj::Value one_solve(const vj::Value& c, Built<VT>& B, const System& S, const std::string& mode, const std::vector<double>& x0,
                            const std::vector<double>& b, const std::vector<LD>* inv, const std::vector<double>* xexact, Prev& prev,
                            const std::string& tag, vj::Value& diag)
 {
   const Index n = S.n;
   auto& sol = *B.solver;
-  VecT vb = to_vec(b), vx = to_vec(x0);
+  VT vb = VOps<VT>::make(b), vx = VOps<VT>::make(x0);
   SolveLog log; g_log = &log;
   if(B.proxy) { B.proxy->failed = false; }
   St ret = (mode == "apply") ? sol.apply(vx, vb) : sol.correct(vx, vb);
   g_log = nullptr;
-  std::vector<double> x = from_vec(vx), b2 = from_vec(vb);
+  std::vector<double> x = VOps<VT>::read(vx), b2 = VOps<VT>::read(vb);
 
   vj::Value T = vj::Value::object();
   T["solver"] = c["solver"].as_str(); T["prec"] = c["prec"].as_str(); T["scen"] = c["scen"].as_str(); T["tag"] = tag;
@@ -480,7 +540,8 @@ static vj::Value one_solve(const vj::Value& c, Built& B, const System& S, const 
   return T;
 }
 
-static void configure(Solver::IterativeSolver<VecT>& s, const vj::Value& g)
+template<class VT>
+static void configure(Solver::IterativeSolver<VT>& s, const vj::Value& g)
 {
   if(g.has("tol_rel")) s.set_tol_rel(g["tol_rel"].as_real());
   if(g.has("tol_abs")) s.set_tol_abs(g["tol_abs"].as_real());
@@ -495,6 +556,8 @@ static void configure(Solver::IterativeSolver<VecT>& s, const vj::Value& g)
   s.set_plot_mode(Solver::PlotMode::none);
 }
 
+template<class VT> vj::Value run_scenarios(const vj::Value& c, Built<VT>& B, const System& S);
+
 vj::Value run_case(const vj::Value& c)
 {
   const std::string sname = c["solver"].as_str(), pname = c["prec"].as_str(), scen = c["scen"].as_str(), mkind = c["mkind"].as_str();
@@ -502,9 +565,28 @@ vj::Value run_case(const vj::Value& c)
   const std::uint64_t seed = std::uint64_t(c["seed"].as_int());
   System S;
   make_system(S, mkind, n, seed, c["delta"].as_real(), c["dens"].as_real(), (int)c["nfilter"].as_int());
-  Built B;
-  if(!build(B, sname, pname, S, c.has("omega") ? c["omega"].as_real() : 1.0))
-  { vj::Value r = vh::ok(); r["skip"] = true; return r; }
+  const double omega = c.has("omega") ? c["omega"].as_real() : 1.0;
+  if(sname == "PipePCG" || sname == "GroppPCG" || sname == "RBiCGStab")
+  {
+    GlobalSystem G(S); g_gate = &G.gate;
+    Built<GVecT> B;
+    if(!build_global(B, sname, pname, G, omega)) { vj::Value r = vh::ok(); r["skip"] = true; return r; }
+    vj::Value res = run_scenarios<GVecT>(c, B, S);
+    B = Built<GVecT>();      // the solver refers to the global containers: destroy it first
+    g_gate = nullptr;
+    return res;
+  }
+  Built<VecT> B;
+  if(!build(B, sname, pname, S, omega)) { vj::Value r = vh::ok(); r["skip"] = true; return r; }
+  return run_scenarios<VecT>(c, B, S);
+}
+
+template<class VT>
+vj::Value run_scenarios(const vj::Value& c, Built<VT>& B, const System& S)
+{
+  const std::string scen = c["scen"].as_str(), mkind = c["mkind"].as_str();
+  const Index n = S.n;
+  const std::uint64_t seed = std::uint64_t(c["seed"].as_int());
   configure(*B.solver, c["cfg"]);
   if(B.proxy && c.has("fail_at")) B.proxy->fail_at = long(c["fail_at"].as_int());
 
